@@ -224,3 +224,36 @@ def canon_pipe_model(o, api):
     if m[0] == 1:
         return ["exc", EXC.get(m[1], str(m[1]))]
     return ["outoffuel"]
+
+
+# ---------------------------------------------------------------- inline guard state (C20 / C01)
+
+def run_guard_impl(md, src, env=None):
+    """ParserInline.tokenize on a fresh StateInline; observes the memo table of skipToken, the backtick
+    closer cache and its scanned flag (the guards that keep the inline parser linear)"""
+    from markdown_it.rules_inline import StateInline
+    env = {} if env is None else env
+    env_in = enc_env(env)
+    with PipeRecorder(md) as rec:
+        try:
+            state = StateInline(src, md, env, [])
+            guarded(md.inline.tokenize, state)
+            exp = ["ok", sorted([int(k), int(v)] for k, v in state.cache.items()),
+                   sorted([int(k), int(v)] for k, v in state.backticks.items()), bool(state.backticksScanned), int(state.pos),
+                   len(state.tokens)]
+        except Exception as e:  # noqa: BLE001
+            exp = ["exc", type(e).__name__]
+    line = sx([41, [inline_cfg(md), src, env_in] + rec.tables()])
+    return line, exp
+
+
+def canon_guard_model(o):
+    m = unsx(o)
+    if not m:
+        return ["bad", o[:200]]
+    if m[0] == 0:
+        c, b, sc, pos, n = m[1]
+        return ["ok", sorted([int(k), int(v)] for k, v in c), sorted([int(k), int(v)] for k, v in b), bool(sc), int(pos), int(n)]
+    if m[0] == 1:
+        return ["exc", EXC.get(m[1], str(m[1]))]
+    return ["outoffuel"]
